@@ -83,7 +83,19 @@ def evaluate(case, obs, decs, cfg=None):
     if dec is None:
         disc.add("harness")
         return disc, hx
-    disc |= isa.compare(case.op, ops_for(case, cfg) if cfg else case.ops, dec, case.flags)
+    exp = ops_for(case, cfg) if cfg else case.ops
+    d1 = isa.compare(case.op, exp, dec, case.flags)
+    if d1 and cfg and "spidx" in case.flags and cfg[1] == "STRICT":
+        # a stack pointer written as the ONLY register ('[1*rsp+d]') under the STRICT swap option: the literal encoding
+        # (no index, no base) is the documented exception, the address-preserving one is allowed as well
+        alt = tuple((e[0], e[1], e[2], (), e[4]) if e[0] == "m" and len(e[3]) == 1 and e[3][0][0] in ("rsp", "esp") else e
+                    for e in exp)
+        if alt != tuple(exp):
+            d2 = isa.compare(case.op, alt, dec, case.flags)
+            d2.discard("asz")      # without registers the address-size prefix changes nothing
+            if len(d2) < len(d1):
+                d1 = d2
+    disc |= d1
     return disc, hx
 
 
